@@ -1335,7 +1335,7 @@ func (x *Exec) globalVal(g *ssa.Global) Val {
 	}
 	if types.Identical(t, types.Universe.Lookup("error").Type()) {
 		// sentinel errors are distinct non-nil values
-		e.decl(fmt.Sprintf("(assert (and (= (itag %s) %d) (= (ival %s) %d)))", name, errTag, name, e.sentinelID(name)))
+		e.decl(fmt.Sprintf("(assert (and (= (itag %s) %d) (= (ival %s) %s)))", name, errTag, name, smtInt(big.NewInt(int64(e.sentinelID(name))))))
 		if g.Pkg.Pkg.Path() == "context" {
 			e.decl(fmt.Sprintf("(assert (isCanceledErr %s))", name))
 		} else {
